@@ -381,6 +381,12 @@ def check_jobs(ctx, jobs, broken):
                         else:
                             sig = f"{fmt}:{reader}:{dt}:{p['pres']}{'+narrow' if 'src' in p else ''}:value"
                         ctx.report(sig, f"{desc}: wrote {want[:64]} read {g['hex'][:64]}", rp)
+    # npz: the model of stacking / indexing / NUL stripping against what the synchronous reader returns, shard by shard
+    try:
+        if not broken:
+            npz_model_check(jobs, res, broken, stats)
+    except Broken as b:
+        broken.append(b)
     # the cast table against numpy
     table_bad = []
     if ct:
@@ -401,11 +407,72 @@ def check_jobs(ctx, jobs, broken):
     return stats, n_model, n_agree, ct, table_bad
 
 
+def npz_model_check(jobs, res, broken, stats):
+    """Model/Npz.v evaluated on every shard of every npz job: fixed-width attributes written in their declared dtype (any layout) and bytes/str attributes."""
+    head = ["Require Import Sedpack.Model.Base Sedpack.Generated.GenCodec Sedpack.Generated.GenNpz Sedpack.Model.Codec Sedpack.Model.Npz.", "Open Scope Z_scope.",
+            "Definition tab (shape : list nat) (l : list Z) (idx : list nat) : Z := nth (ravel shape idx) l 0.",
+            "Definition fixed (shape : list nat) (vals : list (list Z)) : list (list Z) :=",
+            "  let st := npz_stack shape (map (tab shape) vals) in map (fun i => map (npz_read shape st i) (indices shape)) (seq 0 (length vals)).",
+            "Definition strs (vals : list (list Z)) : list (list Z) := map (npz_read_str (npz_stack_str vals)) (seq 0 (length vals))."]
+    zl = lambda l: "[" + "; ".join(str(x) for x in l) + "]"  # noqa: E731
+    nl = lambda l: "[" + "; ".join(f"{x}%nat" for x in l) + "]"  # noqa: E731
+    lines, where = [], []
+    for ji, (job, r) in enumerate(zip(jobs, res)):
+        if job["format"] != "npz" or r.get("write_error") or not isinstance(r.get("read", {}).get("sync"), list):
+            continue
+        got = r["read"]["sync"]
+        if len(got) != len(job["examples"]):
+            continue
+        eps = job.get("eps", 3)
+        for s0 in range(0, len(job["examples"]), eps):
+            grp = list(range(s0, min(s0 + eps, len(job["examples"]))))
+            for ai, a in enumerate(job["attrs"]):
+                ps = [job["examples"][ei][ai] for ei in grp]
+                if a["dtype"] in ("bytes", "str"):
+                    if a["dtype"] == "bytes":
+                        vals = [list(bytes.fromhex(p["hex"])) for p in ps]
+                        impl = [list(bytes.fromhex(got[ei][ai]["hex"])) for ei in grp]
+                    else:
+                        vals = [[ord(c) for c in bytes.fromhex(p["hex"]).decode("utf-8")] for p in ps]
+                        impl = [[ord(c) for c in bytes.fromhex(got[ei][ai]["hex"]).decode("utf-8")] for ei in grp]
+                    lines.append("Eval vm_compute in strs " + "[" + "; ".join(zl(v) for v in vals) + "].")
+                    where.append((ji, grp, ai, impl))
+                elif all("src" not in p and p["pres"] != "list" for p in ps) and all(got[ei][ai]["dtype"] == a["dtype"] for ei in grp):
+                    w = width(a["dtype"])
+                    impl = []
+                    for ei in grp:
+                        raw = bytes.fromhex(got[ei][ai]["hex"])
+                        impl.append([int.from_bytes(raw[k:k + w], "little") for k in range(0, len(raw), w)])
+                    lines.append(f"Eval vm_compute in fixed {nl(a['shape'])} " + "[" + "; ".join(zl(p["bits"]) for p in ps) + "].")
+                    where.append((ji, grp, ai, impl))
+    stats["npz_model_shard_attributes"] = len(where)
+    if not where:
+        return
+    rc, log = common.coq_make(["Model/Npz.vo"])
+    if rc:
+        raise Broken("Model/Npz.v no longer compiles", log[-2000:])
+    files = {f"npz{ci // 250}": "\n".join(head + lines[ci:ci + 250]) + "\n" for ci in range(0, len(lines), 250)}
+    outs = common.coq_eval_many(PID, files)
+    ans = []
+    for ci in range(0, len(lines), 250):
+        ans += common.coq_answers(outs[f"npz{ci // 250}"])
+    dis = 0
+    for (ji, grp, ai, impl), m in zip(where, ans):
+        if [list(x) for x in m] != impl:
+            dis += 1
+            if dis <= 2:
+                broken.append(Broken("correspondence npz model (stacking, indexing, NUL stripping) vs what the reader returns",
+                                     json.dumps({"job": jobs[ji], "examples": grp, "attribute": ai, "model": [list(x) for x in m], "impl": impl})[:3000]))
+    stats["npz_model_disagreements"] = dis
+
+
 def run(ctx):
     broken = []
-    tr = pygen.regenerate(REPO, COQ / "Generated", only=["GenCodec"])
+    tr = pygen.regenerate(REPO, COQ / "Generated", only=["GenCodec", "GenNpz"])
     if tr["GenCodec"]:
         broken.append(Broken("translator: GenCodec (the FlatBuffers attribute codec / decode_array / compress.py lost the shape the model assumes)", tr["GenCodec"]))
+    if tr["GenNpz"]:
+        broken.append(Broken("translator: GenNpz (the npz writer's buffering / np.savez call / the reader's indexing lost the shape the model assumes)", tr["GenNpz"]))
     proof = None
     if not broken:
         try:
@@ -420,7 +487,7 @@ def run(ctx):
     ctx.sample(jobs[0])
     ctx.sample(jobs[-1])
     ctx.coverage.update({
-        "obligations": proof["obligations"] if proof else 8, "discharged": proof["discharged"] if proof else 0,
+        "obligations": proof["obligations"] if proof else 11, "discharged": proof["discharged"] if proof else 0,
         "theorems": proof["theorems"] if proof else [],
         "checker_cmd": "make -C coq Proofs/CodecProofs.vo && coqc -Q coq Sedpack coq/Properties/C01.v (Print Assumptions under each theorem)",
         "trusted_base": common.TRUSTED_BASE_COMMON + [
@@ -429,7 +496,9 @@ def run(ctx):
             "oracles (section hypotheses of C01_fb_shard_roundtrip, validated only by the runs): the FlatBuffers builder/reader (parse (build x) = x), every compressor (decompress (compress c) = c), "
             "NumPy's copy/flatten/astype honouring logical order and value, np.savez/np.load, tf.train.Example/parse_single_example, the Rust decompressors and FlatBuffers reader",
             "floating-point casts (narrower float or integer presented for a float attribute) are NumPy's; only integer casts are modelled and proved exact",
-            "npz and TFRecord encodings are not modelled beyond the integer widening; their fidelity is measured by the runs"],
+            "npz: Model/Npz.v models the buffering, np.asanyarray stacking (one dtype and shape per attribute), indexing along the leading axis and NumPy's S/U item semantics (pad to the common width, strip trailing NULs); "
+            "the writer/reader statements are pinned (GenNpz) and the model is compared with the synchronous reader on every shard of every npz job; the .npy byte encoding itself is NumPy's (oracle)",
+            "the TFRecord encoding is not modelled beyond the integer widening; its fidelity is measured by the runs"],
         "evaluations": stats["reads_compared"] + n_model, "distinct_nontrivial": stats["values"],
         "rule": "datasets written through Dataset.filler for fb/npz/tfrec x compression x dtype x shape (rank 0..4) x presentation (C, F, strided, reversed, transposed, big-endian, read-only, buffer reused after the write, "
                 "safely castable narrower dtype, NumPy scalar, nested list) x extreme bit patterns (min/max, sign bit, +-0, +-inf, quiet/signalling NaN payloads, subnormals, random bits; bytes/str with NULs, empty, non-ASCII); "
